@@ -247,15 +247,29 @@ def install_loggers(api, current, stubs=(), choices=(), keep_real=False):
                             chosen = build(val)
                             break
                     call_spec(_c.native_effect, dict(ba.arguments, _chosen=chosen))
+                ret = None
                 for i, (label, val) in enumerate(pending):
                     if label == _c.label:
                         del pending[i]
                         if val.get("t") == "raise":
                             mod, qn = val["cls"].split(":")
                             raise getattr(importlib.import_module(mod), qn)("stubbed outcome of %s" % label)
-                        return build(val)
-                return None
-            return _orig(*a, **kw)
+                        ret = build(val)
+                        break
+                if _c.log_result is not None:
+                    ba = inspect.signature(_orig).bind(*a, **kw)
+                    ba.apply_defaults()
+                    spec._GHOST["log"].append(call_spec(_c.log_result, dict(ba.arguments, result=ret)))
+                return ret
+            ret = _orig(*a, **kw)
+            if _c.log_result is not None:
+                try:
+                    ba = inspect.signature(_orig).bind(*a, **kw)
+                    ba.apply_defaults()
+                    spec._GHOST["log"].append(call_spec(_c.log_result, dict(ba.arguments, result=ret)))
+                except Exception as e:  # noqa
+                    spec._GHOST["log"].append(("log-error", repr(e)))
+            return ret
         wrapper._pyvc_logged = True
         setattr(owner, parts[-1], staticmethod(wrapper) if is_static else wrapper)
 
